@@ -32,6 +32,9 @@ def run(ctx: Ctx) -> None:
     rep.rule("C08.R7", "the URI join of the DBFS store removes separator syntax only (never the leading '.' of a name): distinct paths keep distinct locations")
     n7 = S.uri_join_keeps_names(ctx, "C08.R7")
     rep.floor("C08.R7", n7, 1)
+    rep.rule("C08.R8", "every path of a commit batch is committed (no early exit from the loop of sync_paths, in any store)")
+    n8 = S.every_path_processed(ctx, "C08.R8")
+    rep.floor("C08.R8", n8, 2)
     rep.rule("C08.R5", "store_blob returns normally only after the commit marker is published (a stored key is reported present)")
     S.store_always_publishes(ctx, v, "C08.R5")
     rep.rule("C08.R6", "committing a path removes / replaces nothing but that path's own entry; the cache wrapper answers path queries from the store")
